@@ -460,7 +460,7 @@ theorem Lib.Inv.handle {l : Lib} (h : l.Inv) (hn : l.NoRec) (env : Env) (r : Raw
         by_cases hr : w.recurse = true
         · rw [if_pos hr]; exact ⟨hd, hdn, rfl⟩
         · rw [if_neg hr]; exact hd.afterMoveSelf hdn env w r
-      · rw [if_neg hm]
+      · rw [if_neg hm, recurseAfter_norec _ _ _ _ (hn.entries _ _ hw)]
         obtain ⟨a, b⟩ := Lib.Inv.emit hd hdn env {} (if test r.mask IN_DELETE_SELF then .deleteSelf else .plain) w r
         exact ⟨a, b, by rw [emit_panic]⟩
 
